@@ -1,7 +1,8 @@
 (* C09 — static size and resource figures are true upper bounds. Statements only; proofs in
    Proofs/Ext*.v over the model Ms/ExtModel.v (extra_props.rs, script_size, descriptor weights,
    Plan accounting) and Ms/Sat.v (satisfier). *)
-From Verif Require Import ExecTr TypeCheck ExtModel ExtProofs ExtLemmas ExtThresh ExtSatSide ExtBounds ExtTyped ExtDesc ExtSize ExtExec.
+From Verif Require Import CodecSpec.
+From Verif Require Import ExecTr TypeCheck ExtModel ExtProofs ExtLemmas ExtThresh ExtSatSide ExtBounds ExtTyped ExtDesc ExtSize ExtExec ExtOps ExtCodec.
 Local Open Scope N_scope.
 
 (* ---- the witness bounds (DESIGN 5/C09 wit_bounds) ----
@@ -158,8 +159,8 @@ Print Assumptions C09_pk_cost_is_size_partial.
 (* ---- executed resources (DESIGN 5/C09 exec_bounds) ----
    PARTIAL. Proved: the instrumented semantics used by the per-run oracle computes the same final
    state as the Script semantics (so its counters describe the real execution), for all scripts,
-   states and traces. NOT proved: executed multisig keys <= max_exec_op_count and stack depth <=
-   max_witness_stack_count + max_exec_stack_count for every satisfaction; these are judged per run
+   states and traces; the op-count bound follows below (C09_exec_ops). NOT proved: stack depth <=
+   max_witness_stack_count + max_exec_stack_count for every satisfaction; it is judged per run
    on every satisfaction the implementation returns (sat engine | extracted exec_tr); that oracle
    found the multi and thresh exec-stack defects repaired by /repo 1919c6c7 and 0676c51a. *)
 Theorem C09_exec_tr_agrees_partial :
@@ -170,6 +171,70 @@ Theorem C09_exec_tr_agrees_partial :
     end.
 Proof. exact exec_tr_agrees. Qed.
 Print Assumptions C09_exec_tr_agrees_partial.
+
+(* ---- executed opcode count (DESIGN 5/C09 exec_bounds, op-count half) ----
+   For EVERY successful execution of the encoded script — any environment, any initial stack, hence
+   every satisfaction the satisfier can return — the consensus opcode count (all opcodes above OP_16
+   of the script, executed or not, plus the keys of every executed CHECKMULTISIG, measured by the
+   instrumented semantics) is at most static_ops + ast_cms, where ast_cms is the all-paths multisig
+   key bound of the AST. Contexts with an opcode limit (no multi_a), multi with at most 20 keys. *)
+Theorem C09_exec_ops :
+  forall fx c ke m e st t st' t',
+    no_multi_a m = true -> multi_small m = true ->
+    exec_tr e (enc ke m) st t = Ok (st', t') ->
+    count_ops (enc ke m) + (tr_cms t' - tr_cms t) <= static_ops (ext_of_gen fx c m) + ast_cms m.
+Proof. exact exec_ops_bound. Qed.
+Print Assumptions C09_exec_ops.
+
+(* ... which is within the library's figure static_ops + max_exec_op_count on the computable class
+   ops_covered (all-paths bound <= figure). PARTIAL: the class contains every script without
+   multi/sortedmulti (C09_ops_covered_cms_free) and, per run, is evaluated on every generated script
+   (evidence: ops_class_coverage); outside it are scripts where a multisig sits on a path that no
+   satisfaction takes (e.g. under d:/j: on the dissatisfied side, or in an unsatisfiable branch). *)
+Theorem C09_exec_ops_within_figure_partial :
+  forall fx c ke m e st t st' t',
+    no_multi_a m = true -> multi_small m = true -> ops_covered fx c m = true ->
+    exec_tr e (enc ke m) st t = Ok (st', t') ->
+    exists n, sat_op_count (ext_of_gen fx c m) = Some n
+              /\ count_ops (enc ke m) + (tr_cms t' - tr_cms t) <= n.
+Proof. exact exec_ops_within_figure. Qed.
+Print Assumptions C09_exec_ops_within_figure_partial.
+
+Theorem C09_ops_covered_cms_free :
+  forall fx c m, cms_free m = true -> sat_data (ext_of_gen fx c m) <> None -> ops_covered fx c m = true.
+Proof. exact cms_free_covered. Qed.
+Print Assumptions C09_ops_covered_cms_free.
+
+Example C09_ops_nonvacuous :
+  ops_covered as_written cx_segwit (MAndV (MVerify (MCheck (MPkK 0))) (MMulti 2 [1; 2; 3])) = true
+  /\ ops_covered as_written cx_segwit (MOrB (MMulti 1 [1; 2]) (MAlt (MMulti 2 [3; 4; 5]))) = true
+  /\ ast_cms (MOrB (MMulti 1 [1; 2]) (MAlt (MMulti 2 [3; 4; 5]))) = 5.
+Proof. vm_compute. auto. Qed.
+
+(* ---- against the REAL encoded length (C04: script_size_ok) ----
+   Miniscript::script_size and, for every fragment a context admits, ExtData::pk_cost are the length
+   of the encoding; the descriptor weight bound is stated over blen (encode ke m) for every
+   well-typed well-formed script (no class, no model script size left in the statement). *)
+Theorem C09_script_size_is_len :
+  forall fx c ke m, ksort_ok ke -> ms_wf c ke m -> blen (encode ke m) = script_size_gen fx (xctx_of c ke) m.
+Proof. exact ext_script_size_is_len. Qed.
+Print Assumptions C09_script_size_is_len.
+
+Theorem C09_pk_cost_is_len :
+  forall c ke m, ksort_ok ke -> ms_wf c ke m -> ctx_frag_ok c m = true ->
+                 pk_cost (ext_of (xctx_of c ke) m) = blen (encode ke m).
+Proof. exact ext_pk_cost_is_len. Qed.
+Print Assumptions C09_pk_cost_is_len.
+
+Theorem C09_desc_weight :
+  forall dk c ke se mall rhs m t l,
+    senv_ok (xctx_of c ke) se -> ksort_ok ke -> ms_wf c ke m ->
+    type_of m = ROk t -> ext_struct_ok (xctx_of c ke) m = true -> se_tap se = false ->
+    s_stack (snd (sat_dissat ke se mall rhs m)) = WStack l ->
+    exists w, desc_weight as_written dk (xctx_of c ke) m = Some w
+              /\ desc_measured dk se l (blen (encode ke m)) <= w.
+Proof. exact desc_weight_bound_len. Qed.
+Print Assumptions C09_desc_weight.
 
 (* ---- Plan accounting (DESIGN 5/C09 plan_sizes): "announced >= real" is refuted three ways for
    the accounting as written (findings plan:omits-script, plan:shwsh-scriptsig-push,
